@@ -611,3 +611,111 @@ CHECKS["C23"]["note"] = (
     'anything else raises for every model); subscripts through an Integer array (x[k[i]]), if-expressions / div / '
     'mod in a subscript, A[i,i], 3-D arrays and nested component arrays are not in the alphabet.'
 )
+
+CHECKS["C10"]["technique"] = (
+    'exhaustive enumeration of variable configurations (singles, ordered pairs, triples) and of der() argument '
+    'trees against a reference classification'
+)
+
+CHECKS["C10"]["text"] = (
+    'Every single configuration of variability x causality x type (Real, Integer, Boolean, String, and the derived '
+    'types VR = Real(unit), VI = Integer(min), VB = Boolean) is generated; a Real variable additionally with every '
+    'der() placement = site (side of an equation, inside a larger expression, initial equation only) x every '
+    'argument tree with <= 2 (thorough: 3) operator nodes over + - * and unary minus x every leaf position of the '
+    'variable (81 / 928 trees; other leaves helper variables, thorough also literals); every model also contains a '
+    'component with a sub-component, each with plain / input / output members of the plain and the derived types '
+    'and parameter / constant members; der() on a nested member: level 1 / 2 x written at the top with dotted names '
+    "/ in the component's own equations / in its own initial equations x all trees (plain Real member) or one tree "
+    'per shape and position (input / output / derived-type members; thorough: all <= 2-operator trees); every '
+    'ordered pair of 24 (thorough: 56) core configurations, each also with three nested placements (thorough: plus '
+    'all triples of the Real none/der(v) ones). Each variable must sit in exactly the list the precedence constant '
+    '> parameter > top-level input > differentiated > algebraic assigns (differentiated = occurs anywhere inside a '
+    'der() argument; input / output never count on component members), String ones in the string lists, one '
+    'der_state per state in matching order, declaration order within a category among the variables of each class '
+    '(names chosen so that it differs from name order), outputs exactly the top-level output-prefixed '
+    'states/algebraics, Integer/Boolean python types kept also through derived types, and every symbol object the '
+    'equations and initial equations depend on is time or a listed variable. Quick 2524 models, thorough 24350.'
+)
+
+CHECKS["C10"]["note"] = (
+    'Scalar variables; flow/stream prefixes, arrays, der() of parameters / constants / discrete / Integer '
+    'variables, division, powers and function calls inside der() are outside the alphabet. der(u) of a top-level '
+    'input u leaves an unlisted der(u) symbol in the equations (the statement classifies u as input and is silent '
+    'about its derivative): not demanded.'
+)
+
+CHECKS["C12"]["technique"] = (
+    'all 8 option settings x every loop/function/delay model and every pair of loop-subscript forms, differential '
+    'comparison with the default setting and with the reference evaluator'
+)
+
+CHECKS["C12"]["text"] = (
+    'Every for-equation and function model of the C11 families, loop-with-call, delay and delay-in-loop models, and '
+    'the loop-index families -- a loop over 2:n (n an Integer parameter) whose body references one array through 1 '
+    'or 2 subscripts, every ordered pair of the 10 forms v, v+1, v-1, 2*v, n+1-v, v*v, v*(v+1)/2, f(v), f(v)+1, '
+    'f(v)-1 (f a user function of Integer type), as x[v] = y[A] + 2*y[B] with 1..4 iterations and, with 2 and 4 '
+    'iterations, as y[A] = ..., der(y[A]) = ..., inside a Real function call and in a for-statement of a function '
+    '(1392 models quick; thorough 11892: also lower bound 1, all lengths, 2-D arrays by row and by column, initial '
+    'for-equations, the loop nested in an outer loop, a non-linear f, every ordered triple of forms) -- is '
+    'generated and simplified under all 8 settings of (unroll_loops, inline_functions, expand_mx); variable names, '
+    "order, shapes, Python types, attribute values, outputs and delay states must equal the default setting's, the "
+    'residual, initial-residual, metadata and delay-argument functions must agree with it on 3 grid points, and the '
+    "residuals of every setting must equal the reference evaluator's per top-level equation (all models but the "
+    'delay ones).'
+)
+
+CHECKS["C12"]["note"] = (
+    "Differential oracle plus C11's reference evaluator (so a fault shared by the default or by all settings in the "
+    'loop-subscript alphabet is seen too); finite grid of all-distinct values; nested loops only in the subset '
+    'pymoca generates (subscripts of the inner variable; outer variable as value or plain subscript); subscripts '
+    'kept inside 1..26 by construction.'
+)
+
+CHECKS["C26"]["text"] = (
+    'Every invocation in the product of PATH subsets x -m sequences of length 0..2 (3 thorough) over {two valid '
+    'models, a class that fails to flatten, an unknown class} x -t {none, sympy, casadi} x -o {directory, missing, '
+    'a file} x -O {none, a=b, malformed} is run through the real tools.compiler.main in process. PATH alphabet '
+    '(13): {two good files, two files with a syntax error, a missing path, an empty directory, a directory holding '
+    'the good files} and the listed-but-unreadable entries {a directory holding a good file and a sub-directory '
+    'named D.mo (itself a tree with one good file), a directory holding a good file and a dangling symbolic link '
+    'L.mo, a directory holding a good file and a regular file N.mo that is not UTF-8, and D.mo, L.mo, N.mo given '
+    'directly}; quick: all subsets of size <= 2 (7 293 invocations); thorough: all 127 subsets of the first seven '
+    'and all subsets of size <= 3 holding an unreadable entry (372 255). The return value / SystemExit code must be '
+    'an admissible count: argparse errors => 2; else usage errors (a dangling link given directly is a missing '
+    'path); else 1 for no files or the number of files with parse errors (syntax error; not UTF-8; a listed entry '
+    'that is no regular file); else one per requested model that fails when the same request is made alone through '
+    'the library API on fresh state. An exception escaping main() is never a count.'
+)
+
+CHECKS["C26"]["note"] = (
+    'One fixture tree; -o / -O are varied on single-path, <= 1 model invocations (thorough: also on every '
+    'invocation over the first seven PATH letters) because usage errors short-circuit everything else in main; for '
+    'listed *.mo entries that are no regular file (sub-directory, dangling link) the statement does not say whether '
+    'they are files with a parse error or no Modelica files, so both counts are accepted (all such entries of one '
+    'invocation read the same way); unreadable-by-permission files are not constructible as root and a symlink loop '
+    'is not a separate letter (same OSError path as the dangling link); log text is not compared; in-process '
+    'main(), so interpreter start-up and the console script wrapper are not covered.'
+)
+
+CHECKS["C02"]["text"] = (
+    'All interleavings with <= 2 preemptions (quick) / <= 3 (thorough; 3 callers with <= 2) of 2-3 real parse() '
+    'calls on one cache database that is absent, holds the text (hit with last-hit update; one hit and one miss), '
+    'has a wrong layout or is corrupt -- each started from every per-process state of parse.initialized_dbs: '
+    'attribute absent (first cached parse of the process), present without this database, present with it. Shared '
+    'as threads (one parser module, one attribute: 3 states) and as processes (one parser module instance and one '
+    "path alias per caller: every tuple of states up to the driver's caller symmetries; quick leaves out the tuples "
+    "with two 'absent' or two 'other' callers). SQLite's own lock manager decides every BUSY; the shim turns a BUSY "
+    "into an immediate error or a disabled thread by SQLite's documented rule, which is calibrated against the real "
+    'library at the start of each run. Oracle: every call returns the uncached tree, none raises, no os.remove of a '
+    'file another caller has open, database intact at the end (layout judged when the database was sound from the '
+    'start or a caller new to it finished its check undisturbed).'
+)
+
+CHECKS["C02"]["note"] = (
+    'Lock hold times << 5 s busy timeout (timeouts only at true deadlock); cyclic garbage of a finished caller is '
+    'collected at once; the per-process state is the attribute parse.initialized_dbs only, written as the value a '
+    'real first parse() leaves (measured per worker); texts the database does not hold are interchangeable '
+    '(symmetry reduction of the per-caller states); callers that had all checked the database before it was damaged '
+    'are not required to repair it; the free-running 16-process clause of the quantifier is sampling and not '
+    'decided; known finding D5:removes-database-in-use is listed in known_findings.json.'
+)
